@@ -16,7 +16,8 @@ EXTENDS DesignCondOps, TLC, Json
 CONSTANTS G,          \* vertices on {0,2,..,2(G-1)}^2 (+ shifts), star centre (G-1, G-1)
           MaxV,       \* at most MaxV vertices
           XLeft, YDown,  \* the lattice is shifted left / down by this many units (>= 0)
-          UseMin, MaxHits, Margin
+          UseMin, MaxHits, Margin,
+          BothOrders  \* abscissa lists ascending and descending (FALSE: ascending only)
 VARIABLES pc, P, X, swap, cl, out, err
 
 vars == <<pc, P, X, swap, cl, out, err>>
@@ -42,7 +43,7 @@ Polys == UNION {{Rot(AngSort(S), k) : k \in 0..(Cardinality(S) - 1)} : S \in Sta
 
 AllX(lo, hi) == [i \in 1..(hi - lo + 3) |-> lo - 2 + i]        \* lo-1 .. hi+1: every half unit, one outside each end
 Rev(s) == [i \in 1..Len(s) |-> s[Len(s) + 1 - i]]
-XLists(lo, hi) == {AllX(lo, hi), Rev(AllX(lo, hi))}
+XLists(lo, hi) == IF BothOrders THEN {AllX(lo, hi), Rev(AllX(lo, hi))} ELSE {AllX(lo, hi)}
 
 Init ==
     /\ pc = "start"
